@@ -218,7 +218,22 @@ func dischargeAll(obs []*Oblig, dir string, timeoutS int, workers int) {
 		go func(ob *Oblig) {
 			defer wg.Done()
 			defer func() { <-sem }()
-			r := solveRace(ob.SMT, timeoutS, nil)
+			to := timeoutS
+			if ob.Expect == "sat" && to > 5 {
+				to = 5
+			}
+			r := solveRace(ob.SMT, to, []string{"z3-new", "cvc5"})
+			if r.status == "unknown" && ob.Expect == "unsat" {
+				r2 := solveRace(ob.SMT, to/2+1, []string{"z3"})
+				for k, v := range r.all {
+					r2.all[k] = v
+				}
+				r2.secs += r.secs
+				if r2.status == "unknown" {
+					r2.out = r.out
+				}
+				r = r2
+			}
 			ob.Result = r.status
 			ob.Backend = r.backend
 			ob.Time = r.secs
